@@ -5,12 +5,14 @@ finalized height, the finalize events and the refusal to delete/replace a finali
 (ii) Sync scenarios of C19 (fast sync, block sync, corrupting / truncating peers, failed sync): SyncTrace.tla checks that the
 finalized height never decreases and the ids served for finalized heights never change.
 (iii) Net.tla: a network of honest real nodes (forging, announcing tips, fork choice, tie break, fast sync): per node the
-stored finalized height follows the model and blocks at finalized heights are never replaced."""
+stored finalized height follows the model and blocks at finalized heights are never replaced.
+(iv) crash points inside the application of every finality-raising block (machinery of C13, CrashTrace.tla): the marker moves
+with the block's one atomic write or not at all."""
 import common
 from common import finish
 from props import c03, c19
 
-C04_NODE = ("accepts-invalid-via-sync:height", "reject-changes-state-via-sync:height", "state-mismatch:finalized", "delete-finalized", "tiebreak-replaces-finalized-tip", "events-mismatch", "restart-fails", "tiebreak-refused")
+C04_NODE = ("finalized-raise-not-atomic", "accepts-invalid-via-sync:height", "reject-changes-state-via-sync:height", "state-mismatch:finalized", "delete-finalized", "tiebreak-replaces-finalized-tip", "events-mismatch", "restart-fails", "tiebreak-refused")
 C04_SYNC = ("finalized-height-decreased", "finalized-block-replaced")
 
 C04_NET = ("net:finalized-mismatch", "net:finalized-block-replaced", "net:finalized-block-missing")
@@ -22,9 +24,34 @@ def sync_part(ctx):
     # tie breaks and fast syncs
     from props import net
     res.update(net.run_net(ctx, lambda k: k.startswith(C04_NET), parts=("honest_exh", "honest_sim", "byz_sim", "chg_sim")))
+    res.update(crash_part(ctx))
     return res
+
+def crash_part(ctx):
+    # (iv) the raise is part of the block's one atomic step (Crash.tla / CrashTrace.tla, machinery of C13): every file-system
+    # operation of an applied block that raises the finalized height is used as a crash point; after the restart the stored
+    # finalized height must have moved together with the block or not at all, and must not exceed the recovered tip
+    from props import c13
+    def report(key, what, replay):
+        if key.startswith("partial-step:") and "finalized" not in what:
+            return
+        if key.startswith("recovery:") and "finalized" not in what:
+            return
+        ctx.violation("finalized-raise-not-atomic:" + key.split(":")[0], what, replay)
+    traces, maxs, maxp = (120, 40, 30) if ctx.tier == "quick" else (1200, 400, 60)
+    res, lines, _ = c13.crash_part(ctx, "fin13", traces, maxs, maxp, mode="fin", report=report)
+    import json
+    n = sum(1 for l in lines if "finalized" in json.loads(l)["effects"])
+    if not ctx.violations and (n < 20 or res["recovered_pre_state"] == 0 or res["recovered_post_state"] == 0):
+        raise common.Inconclusive("crash points on finality-raising blocks: %d (pre %d post %d): vacuous" % (n, res["recovered_pre_state"], res["recovered_post_state"]))
+    return dict(crash_points_on_finality_raising_blocks=n, crash_recovered_pre=res["recovered_pre_state"], crash_recovered_post=res["recovered_post_state"])
 
 def run(ctx):
     from props import net as _net
     _net.maybe_replay(ctx, c03.LEVEL)
+    if ctx.replay:
+        import json
+        d = json.load(open(ctx.replay)).get("replay")
+        if isinstance(d, dict) and "k" in d:
+            finish(ctx, c03.LEVEL, crash_part(ctx))
     c03.run_node(ctx, lambda k: k.startswith(C04_NODE), extra=sync_part)
